@@ -726,6 +726,9 @@ impl<'v> Value<'v> {
         args: &Arguments<'v, '_>,
         eval: &mut Evaluator<'v, '_, '_>,
     ) -> crate::Result<Value<'v>> {
+        // A call made by native code (`sorted(key = f)`, `map`, `partial`, ...) is a call:
+        // it counts as a tick like a call made by the bytecode does.
+        eval.report_forward_progress()?;
         self.invoke_with_loc(None, args, eval)
     }
 
